@@ -111,7 +111,10 @@ func (df *DataFile) WriteMergeFinRecord(id FileID) error {
 	}
 	data := make([]byte, 4)
 	binary.LittleEndian.PutUint32(data, id)
-	_, err := df.ReadWriter.Write(data)
+	// 与 ReadMergeFinRecord 保持一致, 以 chunk 形式写入
+	buf := bytebufferpool.Get()
+	buf.B = append(buf.B, data...)
+	_, err := df.writeSingle(buf)
 	return err
 }
 
